@@ -239,7 +239,8 @@ pub fn cases_cmd(args: &[String]) {
                 for _ in 0..n {
                     let mut r = rng.fork();
                     let (u, p) = gen_universe(&mut r, &g);
-                    let modes = if has("async") { vec!["sync", "fifo", "lifo"] } else { vec!["sync"] };
+                    // "fifo2" / "lifo2": the provider's get_candidates suspends twice
+                    let modes = if has("async") { vec!["sync", "fifo", "lifo", "fifo2", "lifo2", "rand2"] } else { vec!["sync"] };
                     for m in modes {
                         let cfg0 = Cfg {
                             mode: m.into(),
